@@ -48,6 +48,57 @@ def run_sys(run, quick=True):
         shutil.rmtree(wd, ignore_errors=True)
 
 
+def run_tgs(run, quick=True):
+    """Kerberos5TGS.tla (AS / TGS / referrals, client side): model checked with its weakenings, then bound end to end:
+    the real client against simulated KDCs of ten realms with an attacker who replays earlier replies (vh systgs)."""
+    wd = vlib.spec_scratch(["system"])
+    try:
+        info = {"models": {}}
+        for cfg, expect in (("MCK5TGS.cfg", None), ("MCK5TGS_nononce.cfg", "DeliveredIsRight"), ("MCK5TGS_unbounded.cfg", "HopsBounded")):
+            res = vlib.tlc(wd, "MCK5TGS", cfg=cfg, timeout=1800)
+            violated = None
+            if res.violation:
+                import re
+                m = re.search(r"Invariant (\w+) is violated", res.out)
+                violated = m.group(1) if m else "?"
+            info["models"][cfg] = {"distinct": res.distinct, "violated": violated}
+            if violated != expect or (expect is None and (res.rc != 0 or not res.finished)):
+                raise vlib.Inconclusive("Kerberos5TGS %s: expected violated invariant %s, got %s\n%s" % (cfg, expect, violated, res.out[-2000:]))
+            if expect is None:
+                run.add_model(res)
+        trace = os.path.join(wd, "trace.ndjson")
+        vlib.run_harness(["systgs", "-seed", str(run.seed), "-rounds", "6" if quick else "48", "-out", trace], timeout=2400)
+        lines = vlib.read_ndjson(trace)
+        res = vlib.tlc(wd, "TraceK5TGS", workers=1, timeout=1200)
+        info["events"] = len(lines)
+        info["delivered"] = sum(1 for x in lines if x["ev"] == "deliver")
+        info["gave_up"] = sum(1 for x in lines if x["ev"] == "giveup")
+        info["replayed_replies"] = sum(1 for x in lines if x.get("replayed"))
+        info["followed_referrals_max"] = max([x["tgsreqs"] for x in lines if x["ev"] == "deliver"] + [0]) - 1
+        if res.violation:
+            return info, lines, "a delivered ticket is not the one issued for the service asked for (DeliveredIsRight):\n" + res.out[-1500:]
+        if res.rc != 0 or not res.finished:
+            raise vlib.Inconclusive("TraceK5TGS failed:\n" + res.out[-3000:])
+        rej = res.tags("REJECTED")
+        if rej:
+            pos = int(rej[0])
+            return info, lines, "event %d is not a step of Kerberos5TGS: %s" % (pos, lines[pos - 1])
+        if info["delivered"] == 0 or info["gave_up"] == 0 or info["replayed_replies"] == 0 or info["followed_referrals_max"] < 2:
+            raise vlib.Inconclusive("system trace vacuous: %s" % info)
+        # ---- binding self-test: one delivery reported for another service than the ticket's is not a behaviour
+        k = next((i for i, x in enumerate(lines) if x["ev"] == "deliver"), None)
+        bad = [dict(x) for x in lines]
+        bad[k]["want"] = "HTTP/some.other.service"
+        vlib.write_ndjson(trace, bad)
+        res2 = vlib.tlc(wd, "TraceK5TGS", workers=1, timeout=1200)
+        info["binding_selftest"] = {"corrupted_event": k + 1, "rejected": bool(res2.violation) or bool(res2.tags("REJECTED"))}
+        if not info["binding_selftest"]["rejected"]:
+            raise vlib.Inconclusive("binding self-test: TraceK5TGS accepts a delivery for another service")
+        return info, lines, None
+    finally:
+        shutil.rmtree(wd, ignore_errors=True)
+
+
 def main(tier):
     run = vlib.Run("SYS", "model_checking", tier)
     vlib.build_harness()
